@@ -497,6 +497,63 @@ theorem atoiUsize_decimal (n : Nat) (h : n < 18446744073709551616) : atoiUsize (
   have := decimal_digits n
   simpa using this
 
+/-! ### CDATA sections -/
+
+/-- a text that does not contain the CDATA terminator `]]>` -/
+def NoCdataEnd (l : Txt) : Prop := ∀ a b : Txt, l ≠ a ++ [93, 93, 62] ++ b
+
+theorem noCdataEnd_snoc (cur : Txt) (c : UInt8) (h : NoCdataEnd cur) (hc : ¬ (c = 62 ∧ endsBrackets cur = true)) :
+    NoCdataEnd (cur ++ [c]) := by
+  intro a b heq
+  rcases List.eq_nil_or_concat b with rfl | ⟨b', d, rfl⟩
+  · have h1 : cur ++ [c] = (a ++ [93, 93]) ++ [62] := by simpa using heq
+    have h2 := List.append_inj' h1 rfl
+    apply hc
+    refine ⟨by simpa using h2.2, ?_⟩
+    rw [h2.1]
+    simp [endsBrackets]
+  · have h1 : cur ++ [c] = (a ++ [93, 93, 62] ++ b') ++ [d] := by simpa [List.concat_eq_append, List.append_assoc] using heq
+    have h2 := List.append_inj' h1 rfl
+    exact h a b' h2.1
+
+theorem noCdataEnd_short (l : Txt) (h : l.length < 3) : NoCdataEnd l := by
+  intro a b heq
+  have := congrArg List.length heq
+  simp at this
+  omega
+
+theorem cdataSplitAux_flatten (s cur : Txt) : (cdataSplitAux s cur).flatten = cur ++ s := by
+  induction s generalizing cur with
+  | nil => simp only [cdataSplitAux]; split <;> simp_all
+  | cons c r ih =>
+    simp only [cdataSplitAux]
+    split
+    · simp [ih]
+    · simp [ih, List.append_assoc]
+
+theorem cdataSplitAux_noEnd (s cur : Txt) (h : NoCdataEnd cur) : ∀ sec ∈ cdataSplitAux s cur, NoCdataEnd sec := by
+  induction s generalizing cur with
+  | nil =>
+    intro sec hsec
+    simp only [cdataSplitAux] at hsec
+    split at hsec
+    · cases hsec
+    · simp at hsec; subst hsec; exact h
+  | cons c r ih =>
+    intro sec hsec
+    simp only [cdataSplitAux] at hsec
+    split at hsec
+    · rcases List.mem_cons.mp hsec with rfl | hm
+      · exact h
+      · exact ih [c] (noCdataEnd_short _ (by simp)) sec hm
+    · rename_i hc
+      exact ih (cur ++ [c]) (noCdataEnd_snoc cur c h hc) sec hsec
+
+theorem chunksText_cdata (l : List Txt) : chunksText (l.map Chunk.cdata) = l.flatten := by
+  induction l with
+  | nil => rfl
+  | cons a l ih => simp_all [chunksText, Chunk.txt]
+
 /-! ### no step panics -/
 
 theorem siStep_no_panic (c : Name) (m : SiMode) (e : Ev) (x : String) : siStep c m e ≠ .panic x := by
